@@ -451,6 +451,13 @@ class Match(Node):
         self.e, self.arms = e, list(arms)
 
 
+class Deref(Node):
+    """*r where r was bound by a ViaRef statement to `&mut target`"""
+
+    def __init__(self, ref, target):
+        self.ref, self.target = ref, target
+
+
 class Block(Node):
     """{ stmts; expr }"""
 
@@ -477,6 +484,13 @@ class AssignIndex(Node):
 class AssignField(Node):
     def __init__(self, name, path, e):
         self.name, self.path, self.e = name, list(path), e
+
+
+class ViaRef(Node):
+    """let <ref> = &mut <target>; *<ref> = e;   (e may read the target through Deref)"""
+
+    def __init__(self, ref, target, e):
+        self.ref, self.target, self.e = ref, target, e
 
 
 class While(Node):
@@ -647,6 +661,8 @@ def expr_sway(e, ind=1):
         for p, x in e.arms:
             s += f'{pad}    {pat_sway(p)} => {expr_sway(x, ind + 1)},\n'
         return s + pad + '}'
+    if isinstance(e, Deref):
+        return f'(*{e.ref})'
     if isinstance(e, Block):
         return block_sway(e, ind)
     raise TypeError(e)
@@ -665,6 +681,8 @@ def stmts_sway(stmts, ind):
             s += f'{pad}{st.name}[{expr_sway(st.i, ind)}] = {expr_sway(st.e, ind)};\n'
         elif isinstance(st, AssignField):
             s += f'{pad}{st.name}.{".".join(str(x) for x in st.path)} = {expr_sway(st.e, ind)};\n'
+        elif isinstance(st, ViaRef):
+            s += f'{pad}let {st.ref} = &mut {st.target};\n{pad}*{st.ref} = {expr_sway(st.e, ind)};\n'
         elif isinstance(st, While):
             s += f'{pad}while {expr_sway(st.c, ind)} {{\n{stmts_sway(st.body, ind + 1)}{pad}}}\n'
         elif isinstance(st, IfS):
@@ -798,6 +816,8 @@ def type_of(e, fr, spec):
         fr2 = Frame(fr.env, fr.types)
         bind_pattern_types(p, st, fr2)
         return type_of(x, fr2, spec)
+    if isinstance(e, Deref):
+        return fr.types[e.target]
     if isinstance(e, Block):
         fr2 = Frame(fr.env, fr.types)
         for s in e.stmts:
@@ -989,6 +1009,8 @@ def ev(e, fr, spec, g):
         f = spec.fns[e.fn]
         args = [ev(a, fr, spec, g) for a in e.args]
         return call_fn(f, args, spec, g)
+    if isinstance(e, Deref):
+        return fr.env[e.target]
     if isinstance(e, Block):
         saved_env, saved_types = dict(fr.env), dict(fr.types)
         ctl = exec_stmts(e.stmts, fr, spec, g, None)
@@ -1069,6 +1091,9 @@ def exec_stmts(stmts, fr, spec, g, loop):
         elif isinstance(st, Assign):
             v = ev(st.e, fr, spec, act)
             assign(fr, st.name, v, act)
+        elif isinstance(st, ViaRef):
+            v = ev(st.e, fr, spec, act)
+            assign(fr, st.target, v, act)
         elif isinstance(st, AssignIndex):
             t = fr.types[st.name]
             i = ev(st.i, fr, spec, act)
